@@ -32,7 +32,9 @@ def _call(f, *a, **kw):
 _factor = st.one_of(st.sampled_from([1.0, 1.5, 2.0, 2.0, 3.0, 10.0, 1.1, 1.05]), st.floats(1.0, 1000.0),
                     st.floats(1.0, 1.2), st.floats(1.9, 2.1))
 _start = st.one_of(st.just(0.0), st.just(0.0), st.floats(1e-6, 1e6), st.sampled_from([1.0, 0.25, 3.0, 0.1, 100.0]),
-                   st.integers(1, 50).map(float))
+                   st.integers(1, 50).map(float),
+                   # scale class: positive starts below the float epsilon / far below 1
+                   st.sampled_from([1e-17, 2.220446049250313e-16, 2.0e-16, 1e-30, 1e-100, 1e-9]))
 _draws = st.lists(st.one_of(st.floats(0.0, 1.0, exclude_max=True), st.sampled_from([0.0, 1.0 - 2.0 ** -53, 0.5])), min_size=1, max_size=8)
 _jitter = st.one_of(st.just(False), st.just(False), st.just(True), st.floats(-1.0, 1.0), st.sampled_from([1.0, -1.0, 0.5, -0.5]))
 _count = st.one_of(st.none(), st.none(), st.integers(0, 60), st.integers(0, 6), st.just('repeat'))
@@ -120,6 +122,9 @@ def run(case):
     if case['klass'] != 'invalid' and stop < start:
         stop = start
     count, jitter = case['count'], case['jitter']
+    if count == 'repeat' and len(case.get('draws', ())) % 2:
+        count = ''.join(('rep', 'eat'))     # an equal string built at run time (not the interned literal)
+        out.label('repeat_as_runtime_string')
     for v in (start, stop, factor):
         if not math.isfinite(v):
             raise HarnessError('non-finite parameter')
